@@ -31,6 +31,8 @@ pub enum Stmt {
     Unr,
     Call,
     RetCall,
+    /// `return_call_indirect` through table 0, whose only entry is the callee
+    RetCallInd,
     Throw,
     GSet,
     Store,
@@ -257,6 +259,12 @@ impl Emitter {
                 self.push(I::LocalGet(0), Role::Aux);
                 self.push(I::ReturnCall(F_CALLEE), Role::ReturnCall);
             }
+            Stmt::RetCallInd => {
+                self.push(I::LocalGet(1), Role::Aux);
+                self.push(I::LocalGet(0), Role::Aux);
+                self.push(I::I32Const(0), Role::Aux);
+                self.push(I::ReturnCallIndirect { type_index: 1, table_index: 0 }, Role::ReturnCall);
+            }
             Stmt::Throw => self.push(I::Throw(0), Role::Throw),
             Stmt::GSet => {
                 self.push(I::GlobalGet(0), Role::Aux);
@@ -299,6 +307,15 @@ pub struct Emitted {
 /// Does the statement list always end in an instruction after which control does not continue?
 /// (used only to decide whether fall-through result values are still needed: they are always
 /// emitted; dead code is valid wasm)
+fn uses_indirect(ss: &[Stmt]) -> bool {
+    ss.iter().any(|s| match s {
+        Stmt::RetCallInd => true,
+        Stmt::Block(b) | Stmt::Loop(b) => uses_indirect(b),
+        Stmt::If(_, t, e) => uses_indirect(t) || e.as_ref().map(|e| uses_indirect(e)).unwrap_or(false),
+        _ => false,
+    })
+}
+
 pub fn emit(p: &Program) -> Emitted {
     use we::*;
     let res: Vec<ValType> = match p.results {
@@ -320,6 +337,12 @@ pub fn emit(p: &Program) -> Emitted {
     funcs.function(1);
     funcs.function(1);
     m.section(&funcs);
+    let indirect = uses_indirect(&p.main) || uses_indirect(&p.callee);
+    if indirect {
+        let mut tables = TableSection::new();
+        tables.table(TableType { element_type: RefType::FUNCREF, table64: false, minimum: 1, maximum: Some(1), shared: false });
+        m.section(&tables);
+    }
     let mut mems = MemorySection::new();
     mems.memory(MemoryType { minimum: 1, maximum: None, memory64: false, shared: false, page_size_log2: None });
     m.section(&mems);
@@ -332,6 +355,11 @@ pub fn emit(p: &Program) -> Emitted {
     let mut exports = ExportSection::new();
     exports.export("main", ExportKind::Func, F_MAIN);
     m.section(&exports);
+    if indirect {
+        let mut elems = ElementSection::new();
+        elems.active(Some(0), &ConstExpr::i32_const(0), Elements::Functions(std::borrow::Cow::Borrowed(&[F_CALLEE][..])));
+        m.section(&elems);
+    }
     let mut code = CodeSection::new();
     let mut roles_out: [Vec<Role>; 2] = [vec![], vec![]];
     let mut next_mark = 1;
@@ -383,6 +411,8 @@ pub enum Leaf {
     Unr,
     Call,
     RetCall,
+    /// `return_call_indirect` through table 0, whose only entry is the callee
+    RetCallInd,
     Throw,
     GSet,
     Store,
@@ -486,6 +516,7 @@ fn single(g: &Grammar, n: usize, ctx: &mut Vec<Ctx>, memo: &mut std::collections
                 Leaf::Unr => out.push(Stmt::Unr),
                 Leaf::Call => out.push(Stmt::Call),
                 Leaf::RetCall => out.push(Stmt::RetCall),
+                Leaf::RetCallInd => out.push(Stmt::RetCallInd),
                 Leaf::Throw => out.push(Stmt::Throw),
                 Leaf::GSet => out.push(Stmt::GSet),
                 Leaf::Store => out.push(Stmt::Store),
